@@ -13,6 +13,8 @@ func init() {
 	regWitness(
 		Witness{Rule: "C01.tab.atoms", Name: "true-follow-byte-3", File: f, After: "func isValidTrueAtom(", Old: "isNotStructuralOrWhitespace(buf[4]) == 0", New: "isNotStructuralOrWhitespace(buf[3]) == 0", Breaks: "`[true]` rejected, `[tru,]` … the follow byte is read inside the atom"},
 		Witness{Rule: "C01.tab.atoms", Name: "false-mask-4-bytes", File: f, Old: "const mask5 = uint64(0x000000ffffffffff)", New: "const mask5 = uint64(0x00000000ffffffff)", Breaks: "`[falsX]`-like atoms of 8+ remaining bytes are accepted"},
+		Witness{Rule: "C01.tab.atoms", Name: "true-needs-six-bytes", File: f, After: "func isValidTrueAtom(", Old: "if len(buf) >= 5 {", New: "if len(buf) >= 6 {", Breaks: "`[true]` at the very end of the input is rejected"},
+		Witness{Rule: "C01.tab.atoms", Name: "false-or-follow", File: f, After: "func isValidFalseAtom(", Old: "[]byte(\"false\")) && isNotStructuralOrWhitespace", New: "[]byte(\"false\")) || isNotStructuralOrWhitespace", Breaks: "`[fxxxx]` is accepted near the end of the input"},
 		Witness{Rule: "C01.tab.atoms", Name: "null-constant", File: f, Old: "const nv = 0x000000006c6c756e", New: "const nv = 0x000000006c6c7565", Breaks: "`null` rejected and another four-letter word accepted"},
 	)
 }
@@ -50,7 +52,44 @@ func ruleAtoms(c *Ctx) {
 			}
 			r := sp.Ret[0].String()
 			if r == "false" {
+				// a flat rejection needs a reason: the literal differs, or fewer than n+1 bytes are left
+				mismatch := false
+				maxLen := int64(-1)
+				for _, cd := range sp.Conds {
+					if cd.Other == "" && cd.Op == token.NEQ && strings.Contains(cd.L.String(), ".Uint32(P:buf)") && cd.R.IsConst() && cd.R.K == le(spec.lit) {
+						mismatch = true
+					}
+					if cd.Other == "" && cd.Op == token.LSS && cd.L.String() == "len(P:buf)" && cd.R.IsConst() && (maxLen < 0 || cd.R.K < maxLen) {
+						maxLen = cd.R.K
+					}
+				}
+				if !mismatch && !(maxLen >= 0 && maxLen <= int64(n)+1) {
+					okAll = false
+					why = fmt.Sprintf("the atom is rejected outright although up to %d bytes may be left (only fewer than %d justify that)", maxLen-1, n+1)
+					if maxLen < 0 {
+						why = "the atom is rejected outright on a path without a length or literal test"
+					}
+				}
 				continue
+			}
+			// the accepting expression is one of the exact forms: follow test alone (literal established by the path),
+			// masked-word test OR-ed with the follow test compared with 0, or bytes.Equal AND follow test
+			follow := fmt.Sprintf("isNotStructuralOrWhitespace(P:buf[%d])", n)
+			rr := reCallNum.ReplaceAllString(r, "")
+			forms := []string{
+				"(0==" + follow + ")",
+				fmt.Sprintf("(((((encoding/binary.littleEndian).Uint64(P:buf)&%d)^%d)|%s)==0)", int64(1)<<40-1, le(spec.lit), follow),
+				fmt.Sprintf("((0==%s)&&bytes.Equal(P:buf[:%d],[]byte(\"%s\")))", follow, n, spec.lit),
+			}
+			okForm := false
+			for _, f := range forms {
+				if rr == f {
+					okForm = true
+				}
+			}
+			if !okForm {
+				okAll = false
+				why = "the accepting expression " + trunc(rr, 140) + " is not literal-equal AND follow-byte-is-structural-or-white-space"
 			}
 			nAccept++
 			// minimum length established on the path
